@@ -72,13 +72,41 @@ def huge_count(rng):
     return 'huge-count:' + which, nodeharness.frame(M.MessageHeader(0, 9, 0, 1).serialize() + body)
 
 
+def noncanonical_count(rng):
+    """a list-carrying message whose element count is written in a non-minimal variable-length form (0x80 0x02 for 2)"""
+    from ipaddress import IPv6Address
+    from skepticoin.networking import messages as M
+    which = rng.choice(['getblocks', 'inventory', 'peers'])
+
+    def mk(n):
+        if which == 'getblocks':
+            return M.GetBlocksMessage([bytes([7]) * 32] * n, bytes([9]) * 32)
+        if which == 'inventory':
+            return M.InventoryMessage([M.InventoryItem(M.DATA_BLOCK, bytes([7]) * 32)] * n)
+        return M.PeersMessage([M.Peer(0, IPv6Address('::FFFF:10.9.9.9'), 2412)] * n)
+    a, b = mk(2).serialize(), mk(3).serialize()
+    pos = [i for i in range(len(a)) if a[i] != b[i]][0]
+    body = a[:pos] + bytes([0x80] * rng.choice([1, 2])) + a[pos:]
+    return 'non-minimal-count:' + which, nodeharness.frame(M.MessageHeader(0, 9, 0, 1).serialize() + body)
+
+
+def many_addresses(rng):
+    """one well-formed peers message announcing 1,500 unknown addresses, followed by broken framing"""
+    from ipaddress import IPv6Address
+    from skepticoin.networking import messages as M
+    msg = M.PeersMessage([M.Peer(0, IPv6Address('::FFFF:10.77.%d.%d' % (i // 250, i % 250 + 1)), 2412) for i in range(1500)])
+    return 'many-addresses', nodeharness.frame(M.MessageHeader(0, 9, 0, 1).serialize() + msg.serialize()) + b'XXXX'
+
+
 def corrupt(rng, payloads):
     """one adversarial stream (bytes) + label"""
     fr = nodeharness.frame
     r = rng.random()
     name, p = rng.choice(payloads)
-    if r < 0.06:
+    if r < 0.05:
         return huge_count(rng)
+    if r < 0.10:
+        return noncanonical_count(rng)
     if r < 0.15:
         b = bytearray(fr(p))
         for _ in range(rng.choice([1, 1, 3])):
@@ -134,6 +162,7 @@ def run(tier, seed):
         head = max(main, key=lambda x: x.height)
         cs0 = chaingen.impl_state_from(main)
         with simnet.Net(seed=rng.getrandbits(30), t0=head.view.time + 100) as net:
+            net.max_open_sockets = 1024          # the usual per-process descriptor limit
             sn = nodeharness.SingleNode(net, cs0, [m.block for m in main[1:]], npeers=2)
             sn.new_messages()
             # context: a bulk download is in progress -- two valid blocks arrived as replies to the node's own requests and
@@ -178,6 +207,8 @@ def run(tier, seed):
                             M.MessageHeader(0, 9, 0, 1).serialize() + M.DataMessage(M.DATA_TRANSACTION, fresh_tx).serialize())))
                 for _ in range(rng.choice([1, 1, 2, 3])):
                     streams.append(corrupt(rng, payloads))
+                if greeted and sess % 60 == 7:
+                    streams.append(many_addresses(rng))
                 label = '+'.join(s[0].split(':')[0] for s in streams[1 if greeted else 0:])
                 data = b''.join(s[1] for s in streams)
                 # random chunking
@@ -193,6 +224,8 @@ def run(tier, seed):
                             break
                         pos += n
                         sn.pump()
+                    sn.pump()
+                    sn.node.step()                # the managers' timer step runs between reads in the real loop
                     sn.pump()
                     signal.setitimer(signal.ITIMER_REAL, 0)
                 except (Stalled, MemoryError) as e:
